@@ -38,8 +38,8 @@ def run_case(case):
         fn = _load(case["fn"])
         kwargs = case.get("kwargs", {})
         opts = case.get("opts", {})
-        if opts.get("concrete_jit"):
-            return _run_concrete_jit(case, t0)
+        if opts.get("concrete_jit") or opts.get("concrete_float"):
+            return _run_concrete_jit(case, t0, jit=bool(opts.get("concrete_jit")))
         cx = core.Ctx(mode="sym", branch_timeout_ms=opts.get("branch_timeout_ms", 300),
                       check_timeout_ms=opts.get("check_timeout_ms", 60000),
                       max_paths=opts.get("max_paths", 200000))
@@ -153,9 +153,10 @@ def _run_pool(cases, jobs, verbose, default_case_timeout):
     return results
 
 
-def _run_concrete_jit(case, t0):
-    """a concrete witness executed against the REAL jitted code (NUMBA_DISABLE_JIT=0) in its own process: the only way
-    to observe behaviour that differs between numba's compiled semantics and the Python source"""
+def _run_concrete_jit(case, t0, jit=True):
+    """a concrete witness executed against the real code in float64 in its own process - with jit=True against the
+    REAL jitted code (NUMBA_DISABLE_JIT=0): the only way to observe behaviour that differs between numba's compiled
+    semantics / IEEE rounding and the exact-arithmetic Python-source encoding"""
     pid = case["pid"]
     d = _empty_result(case)
     rdir = os.path.join(ROOT, "replays", pid)
@@ -165,7 +166,7 @@ def _run_concrete_jit(case, t0):
     json.dump(dict(property=pid, case=case, label=label, model={}, info="concrete witness on the jitted code"),
               open(path, "w"), indent=1)
     env = dict(os.environ)
-    env["NUMBA_DISABLE_JIT"] = "0"
+    env["NUMBA_DISABLE_JIT"] = "0" if jit else "1"
     env["NUMBA_CACHE_DIR"] = os.path.join(rdir, "numba_cache")
     p = subprocess.run([sys.executable, "-m", "symx.runner", pid, "--replay", path], cwd=ROOT, env=env,
                        capture_output=True, text=True, timeout=case["opts"].get("case_timeout_s", 1200))
